@@ -15,6 +15,7 @@
 #include "sysdefs.h"
 #include "mythread.h"
 #include "tuklib_integer.h"
+#include "verif_hooks.h"
 
 // LZMA_API_EXPORT is used to mark the exported API functions.
 // It's used to define the LZMA_API macro.
